@@ -348,7 +348,9 @@ def d5_cohesion_sampler(ctx):
         stored = elp is not None and any(isinstance(n, ast.Assign) and astx.u(n.targets[0]) == f"ballot_type[{pos}]" for n in elp.body)
         zero_case = literals(Normalizer(None, inline=False, int_atoms=lambda a: True).conj([(ast.parse("total_value_sum == 0 and len(values) > 0", mode="eval").body, True)]))
         own = literals(Normalizer(f.node, inline=False, int_atoms=lambda a: True).conj(astx.path_condition(f.node, sh[0], pm, carried=False)[-1:]))
-        good = okexp and stored and own == zero_case and after == [f"ballot_type[{pos} + 1:] = {v}", "break"] and any("total_value_sum" in l for l in lits) and dv.lineno < sh[0].lineno
+        # (the sum of non-negative cohesion values is a number: `not total_value_sum` tests the same zero)
+        zero_alt = literals(Normalizer(None, inline=False, int_atoms=lambda a: True).conj([(ast.parse("not total_value_sum and len(values) > 0", mode="eval").body, True)]))
+        good = okexp and stored and own in (zero_case, zero_alt) and after == [f"ballot_type[{pos} + 1:] = {v}", "break"] and any("total_value_sum" in l for l in lits) and dv.lineno < sh[0].lineno
     ctx.check(good, f, sh[0] if sh else f.node, "zero-cohesion tail: one slot per remaining candidate, the slots shuffled uniformly, written after position i, round stops", "",
               "the completion of a ballot among zero-cohesion slates changed (slots must be expanded per candidate BEFORE shuffling)")
     wb = prog.nested_func(f, "which_bin")
@@ -570,5 +572,6 @@ FAULTS += [
     ("dirichlet one short", [(BG, "np.random.default_rng().dirichlet([self.alpha] * len(perm_rankings))", "np.random.default_rng().dirichlet([self.alpha] * len(self.candidates))")], "C16.D"),
 ]
 BENIGN = [
+    ("zero-cohesion test by truthiness", [(BG, "                if total_value_sum == 0 and len(values) > 0:", "                if not total_value_sum and values:")]),
     ("PL values via local dict", [(BG, "            pref_interval_values = [\n                self.pref_interval_by_bloc[bloc].interval[c] for c in non_zero_cands\n            ]", "            iv = self.pref_interval_by_bloc[bloc].interval\n            pref_interval_values = [iv[c] for c in non_zero_cands]")]),
 ]
